@@ -138,9 +138,21 @@ func c09BuildSplit(t *rapid.T) (c09SplitProg, bool) {
 			}
 			cnt := ts.VarRef{Name: "lcount", Ty: ts.TInt}
 			f.Stmts = append([]ts.Stmt{ts.VarDecl{Names: []string{"lcount"}, Ty: ts.TInt, Tys: []ts.Type{ts.TInt}, Vals: []ts.Expr{ts.IntLit{V: 7}}, Form: ts.DeclShort}}, f.Stmts...)
-			f.Stmts = append(f.Stmts, ts.FuncDef{Name: "Lbump", Rets: []ts.Type{ts.TInt}, Body: []ts.Stmt{
-				ts.Assign{Names: []string{"lcount"}, Vals: []ts.Expr{ts.Bin{Op: "+", Ty: ts.TInt, L: cnt, R: ts.IntLit{V: 1}}}},
-				ts.Return{Vals: []ts.Expr{cnt}}}})
+			// the library updates its own global in one of the forms the language has (plain, compound, ++, -- then +2, nested)
+			var upd []ts.Stmt
+			switch gen.Uniform(0, 4).Draw(t, "library-global-update") {
+			case 0:
+				upd = []ts.Stmt{ts.Assign{Names: []string{"lcount"}, Vals: []ts.Expr{ts.Bin{Op: "+", Ty: ts.TInt, L: cnt, R: ts.IntLit{V: 1}}}}}
+			case 1:
+				upd = []ts.Stmt{ts.OpAssign{Name: "lcount", Ty: ts.TInt, Op: "+", Val: ts.IntLit{V: 1}}}
+			case 2:
+				upd = []ts.Stmt{ts.IncDec{Name: "lcount", Inc: true}}
+			case 3:
+				upd = []ts.Stmt{ts.IncDec{Name: "lcount", Inc: false}, ts.OpAssign{Name: "lcount", Ty: ts.TInt, Op: "+", Val: ts.IntLit{V: 2}}}
+			default:
+				upd = []ts.Stmt{ts.If{Cond: ts.Cmp{Op: ">", L: cnt, R: ts.IntLit{V: 0}}, Then: []ts.Stmt{ts.IncDec{Name: "lcount", Inc: true}}}}
+			}
+			f.Stmts = append(f.Stmts, ts.FuncDef{Name: "Lbump", Rets: []ts.Type{ts.TInt}, Body: append(upd, ts.Return{Vals: []ts.Expr{cnt}})})
 			call := ts.Call{Alias: alias, Name: "Lbump", Rets: []ts.Type{ts.TInt}}
 			mainF.Stmts = append(mainF.Stmts, ts.Print{Args: []ts.Expr{ts.StrLit{V: alias}, call}}, ts.Print{Args: []ts.Expr{ts.StrLit{V: alias}, call}})
 			ref.Stdout += alias + " 8\n" + alias + " 9\n"
